@@ -7,9 +7,73 @@ use serde_json::{json, Value as J};
 use crate::av::Rng;
 use crate::{read_cases, write_run, Args, Sink};
 
+/// RFC 3986 6.2.2 syntax-based normalisation of a path: hex digits of escapes upper-cased, escapes of unreserved
+/// characters decoded, dot segments removed (empty segments are kept: they are significant)
+pub fn norm_path(p: &str) -> String {
+    let b = p.as_bytes();
+    let mut o: Vec<u8> = vec![];
+    let mut i = 0;
+    let hexv = |c: u8| (c as char).to_digit(16).map(|d| d as u8);
+    while i < b.len() {
+        if b[i] == b'%' && i + 3 <= b.len() {
+            if let (Some(h), Some(l)) = (hexv(b[i + 1]), hexv(b[i + 2])) {
+                let v = h * 16 + l;
+                let c = v as char;
+                if v < 128 && (c.is_ascii_alphanumeric() || matches!(c, '-' | '.' | '_' | '~')) {
+                    o.push(v);
+                } else {
+                    o.extend_from_slice(format!("%{:02X}", v).as_bytes());
+                }
+                i += 3;
+                continue;
+            }
+        }
+        o.push(b[i]);
+        i += 1;
+    }
+    let out = String::from_utf8_lossy(&o).into_owned();
+    // remove_dot_segments
+    let mut segs: Vec<&str> = vec![];
+    let parts: Vec<&str> = out.split('/').collect();
+    for (k, seg) in parts.iter().enumerate() {
+        match *seg {
+            "." => {
+                if k == parts.len() - 1 {
+                    segs.push("");
+                }
+            }
+            ".." => {
+                if segs.len() > 1 {
+                    segs.pop();
+                }
+                if k == parts.len() - 1 {
+                    segs.push("");
+                }
+            }
+            x => segs.push(x),
+        }
+    }
+    segs.join("/")
+}
+
+/// host compared as a host: lower case; an IPv6 literal in its canonical text form
+pub fn norm_host(h: &str) -> String {
+    if h.starts_with('[') && h.ends_with(']') {
+        let inner = &h[1..h.len() - 1];
+        let (addr, zone) = match inner.find('%') {
+            Some(i) => (&inner[..i], &inner[i..]),
+            None => (inner, ""),
+        };
+        if let Ok(a) = addr.parse::<std::net::Ipv6Addr>() {
+            return format!("[{}{}]", a, zone.to_lowercase());
+        }
+    }
+    h.to_lowercase()
+}
+
 /// scheme://[user[:pass]@]host[:port][/path][?query]
 pub fn split_uri(s: &str) -> J {
-    let bad = || json!({"scheme": "UNPARSABLE", "hasuser": false, "user": s, "haspass": false, "pass": "", "host": "", "port": 0, "path": "", "hasq": false, "query": ""});
+    let bad = || json!({"scheme": "UNPARSABLE", "hasuser": false, "user": s, "haspass": false, "pass": "", "host": "", "port": 0, "path": "", "hasq": false, "query": "", "hostn": "", "pathn": ""});
     let Some(p) = s.find("://") else { return bad() };
     let scheme = &s[..p];
     let rest = &s[p + 3..];
@@ -59,7 +123,7 @@ pub fn split_uri(s: &str) -> J {
         None => (tail, false, ""),
     };
     json!({"scheme": scheme, "hasuser": hasuser, "user": user, "haspass": haspass, "pass": pass, "host": host, "port": port,
-        "path": path, "hasq": hasq, "query": query})
+        "path": path, "hasq": hasq, "query": query, "hostn": norm_host(host), "pathn": norm_path(path)})
 }
 
 fn printer_uri_of(r: &IppRequestResponse) -> J {
@@ -72,6 +136,15 @@ fn printer_uri_of(r: &IppRequestResponse) -> J {
         }
     }
     split_uri("MISSING")
+}
+
+fn printer_uri_text(r: &IppRequestResponse) -> String {
+    for g in r.attributes().groups_of(DelimiterTag::OperationAttributes) {
+        if let Some(a) = g.attributes().get("printer-uri") {
+            return format!("{}", a.value());
+        }
+    }
+    String::new()
 }
 
 fn contains(h: &[u8], n: &[u8]) -> bool {
@@ -136,7 +209,7 @@ pub fn run(a: &Args) {
                 Some(match r.below(7) {
                     4 => format!("mail=a@b.c&t={}", tokn),
                     5 => format!("frag=%23x{}&slash=%2F", tokn),
-                    6 => format!("{}", tokn),
+                    6 => format!("7{:07}", tokn),
                     0 => format!("qz{}=1", tokn),
                     1 => format!("a=b&token=T{}", tokn),
                     2 => format!("k=S3CR3T%2F{}", tokn),
@@ -194,9 +267,10 @@ pub fn run(a: &Args) {
             let mut req_parts = vec![];
             for rq in &reqs {
                 req_parts.push(printer_uri_of(rq));
-                let bytes = rq.to_bytes();
+                // C13 is about the printer-uri attribute (what else a request may say about the user is C10's business)
+                let pu = printer_uri_text(rq);
                 for secret in [user.as_deref(), pass.as_deref(), query.as_deref()].into_iter().flatten() {
-                    if contains(&bytes, secret.as_bytes()) {
+                    if secret.len() >= 3 && (contains(pu.as_bytes(), secret.as_bytes()) || contains(canon_s.as_bytes(), secret.as_bytes())) {
                         leak = true;
                     }
                 }
